@@ -38,12 +38,21 @@ fn config(cfg: Cfg) -> DownlinkConfig {
 
 pub fn run(kind: Kind, cfg: Cfg, seq: &[Sym], w: &Wire, burst: bool) -> RunOut {
     match kind {
-        Kind::Map => run_map(cfg, seq, w, burst),
-        Kind::Value => run_value(cfg, seq, w, burst),
+        Kind::Map => run_map(cfg, seq, w, burst, false),
+        Kind::Value => run_value(cfg, seq, w, burst, false),
     }
 }
 
-fn run_map(cfg: Cfg, seq: &[Sym], w: &Wire, burst: bool) -> RunOut {
+/// The same downlink after every write handle has been dropped: the task carries on in its
+/// read-only mode (local write symbols are ignored).
+pub fn run_read_only(kind: Kind, cfg: Cfg, seq: &[Sym], w: &Wire) -> RunOut {
+    match kind {
+        Kind::Map => run_map(cfg, seq, w, false, true),
+        Kind::Value => run_value(cfg, seq, w, false, true),
+    }
+}
+
+fn run_map(cfg: Cfg, seq: &[Sym], w: &Wire, burst: bool, read_only: bool) -> RunOut {
     let mut out = RunOut::default();
     let log: Log = Default::default();
     let lifecycle = BasicMapDownlinkLifecycle::<i32, i32>::default()
@@ -55,23 +64,33 @@ fn run_map(cfg: Cfg, seq: &[Sym], w: &Wire, burst: bool) -> RunOut {
         .on_clear_blocking(|l, old| l.lock().unwrap().push(Cb::Clear { old }))
         .on_unlink_blocking(|l| l.lock().unwrap().push(Cb::Unlinked));
     let (op_tx, op_rx) = mpsc::channel::<MapOperation<i32, i32>>(64);
-    let handle = MapDownlinkHandle::new(op_tx);
+    let mut handle = Some(MapDownlinkHandle::new(op_tx));
     let model = MapDownlinkModel::new(op_rx, lifecycle);
     let (mut in_tx, in_rx) = byte_channel(NonZeroUsize::new(CHANNEL).unwrap());
     let (out_tx, out_rx) = byte_channel(NonZeroUsize::new(CHANNEL).unwrap());
     let task = DownlinkTask::new(model).run(Address::text(None, "/node", "lane"), config(cfg), in_rx, out_tx);
     let mut subj = Subject::new(task.budgeted());
     settle(&mut subj, &mut out);
+    if read_only {
+        handle = None;
+        settle(&mut subj, &mut out);
+    }
     for (_i, s) in seq.iter().enumerate() {
         match *s {
             Sym::LUpd(k, x) => {
-                let _ = wire::poll_once(handle.update(k, x));
+                if let Some(h) = &handle {
+                    let _ = wire::poll_once(h.update(k, x));
+                }
             }
             Sym::LRem(k) => {
-                let _ = wire::poll_once(handle.remove(k));
+                if let Some(h) = &handle {
+                    let _ = wire::poll_once(h.remove(k));
+                }
             }
             Sym::LClear => {
-                let _ = wire::poll_once(handle.clear());
+                if let Some(h) = &handle {
+                    let _ = wire::poll_once(h.clear());
+                }
             }
             other => {
                 if let Some(bytes) = w.map_bytes(other) {
@@ -102,7 +121,7 @@ fn run_map(cfg: Cfg, seq: &[Sym], w: &Wire, burst: bool) -> RunOut {
     out
 }
 
-fn run_value(cfg: Cfg, seq: &[Sym], w: &Wire, burst: bool) -> RunOut {
+fn run_value(cfg: Cfg, seq: &[Sym], w: &Wire, burst: bool, read_only: bool) -> RunOut {
     let mut out = RunOut::default();
     let log: Log = Default::default();
     let lifecycle = BasicValueDownlinkLifecycle::<i32>::default()
@@ -119,10 +138,17 @@ fn run_value(cfg: Cfg, seq: &[Sym], w: &Wire, burst: bool) -> RunOut {
     let task = DownlinkTask::new(model).run(Address::text(None, "/node", "lane"), config(cfg), in_rx, out_tx);
     let mut subj = Subject::new(task.budgeted());
     settle(&mut subj, &mut out);
+    let mut set_tx = Some(set_tx);
+    if read_only {
+        set_tx = None;
+        settle(&mut subj, &mut out);
+    }
     for (_i, s) in seq.iter().enumerate() {
         match *s {
             Sym::LSet(x) => {
-                let _ = set_tx.try_send(ValueDownlinkSet { to: x });
+                if let Some(tx) = &set_tx {
+                    let _ = tx.try_send(ValueDownlinkSet { to: x });
+                }
             }
             other => {
                 if let Some(bytes) = w.value_bytes(other) {
